@@ -61,7 +61,7 @@ ZERO_AT_ZERO = {'sin', 'tan', 'tanh', 'sinh', 'sqrt', 'asin', 'atan', 'asinh', '
 TRANSCENDENTAL = NEVER_ZERO | ZERO_AT_ZERO | {'log', 'rsqrt', 'logistic', 'acos', 'pow', 'atan2', 'erf_inv', 'erfc',
                                                'lgamma', 'digamma', 'is_finite', 'floor', 'ceil', 'round', 'nextafter'}
 COMPARE = {'lt', 'le', 'gt', 'ge', 'eq', 'ne', 'and', 'or', 'not', 'xor'}
-CALL_LIKE = {'pjit', 'jit', 'closed_call', 'core_call', 'remat', 'checkpoint', 'custom_jvp_call', 'custom_vjp_call',
+CALL_LIKE = {'pjit', 'jit', 'closed_call', 'core_call', 'remat', 'remat2', 'checkpoint', 'custom_jvp_call', 'custom_vjp_call',
              'custom_vjp_call_jaxpr', 'custom_lin', 'named_call', 'xla_call'}
 
 
@@ -289,7 +289,12 @@ class Analysis:
 
   def _scan(self, eqn, ins):
     p = eqn.params
-    nc, ncar = p['num_consts'], p['num_carry']
+    if 'num_consts' in p:
+      nc, ncar = p['num_consts'], p['num_carry']
+    else:
+      # newer JAX: input/output structure as flat trees (consts, carry, xs) / (carry, ys)
+      groups = p['ft_in'].unpack()
+      nc, ncar = len(list(groups[0].vals)), len(list(groups[1].vals))
     cj = p['jaxpr']
     length = p['length']
     consts, carry, xs = ins[:nc], ins[nc:nc + ncar], ins[nc + ncar:]
